@@ -315,8 +315,10 @@ def verdict(case, r, rc):
     """None when the round is fine, else (key, what)."""
     nthr = len(case["threads"])
     if r is None:
-        if rc == 0:
-            return None   # not run (an earlier round of the same process crashed)
+        if rc in (0, 77):
+            return None   # not run (an earlier round of the same process ended it), or skipped by the watchdog as too expensive
+        if rc == 78:
+            return ("hang:all-threads-idle", "round %s (%d threads): no progress and no CPU use for the watchdog period (deadlock)" % (case["id"], nthr))
         sig = {134: "SIGABRT", 139: "SIGSEGV", 135: "SIGBUS", 132: "SIGILL", 124: "timeout/hang", 137: "SIGKILL",
                -6: "SIGABRT", -11: "SIGSEGV", -7: "SIGBUS", -4: "SIGILL", -9: "SIGKILL", -5: "SIGTRAP", 133: "SIGTRAP"}.get(rc, "rc=%s" % rc)
         return ("crash:%s" % sig, "the process running round %s (%d threads) died with %s" % (case["id"], nthr, sig))
@@ -423,7 +425,13 @@ def model_replay(ctx, sample):
 
 def evaluate(ctx, cases, first_use_cases, coq_sample=24, do_minimise=True):
     res, rcs = run_rounds(ctx, cases)
-    ctx.log("ran %d rounds in %d child processes" % (len(cases), min(sv.NPROC, max(1, len(cases)))))
+    # rounds that were not run because an earlier round ended their process (crash, watchdog): second pass
+    again = [i for i in range(len(cases)) if res[i] is None and rcs[i] == 0]
+    if again:
+        res2, rcs2 = run_rounds(ctx, [cases[i] for i in again])
+        for i, r2, c2 in zip(again, res2, rcs2):
+            res[i], rcs[i] = r2, c2
+    ctx.log("ran %d rounds in %d child processes (%d re-run after their process ended early)" % (len(cases), min(sv.NPROC, max(1, len(cases))), len(again)))
     fres, frcs = run_rounds(ctx, first_use_cases, one_per_process=True)
     ctx.log("ran %d first-use rounds, each in a fresh process" % len(first_use_cases))
     allc = list(zip(cases, res, rcs)) + list(zip(first_use_cases, fres, frcs))
@@ -440,7 +448,7 @@ def evaluate(ctx, cases, first_use_cases, coq_sample=24, do_minimise=True):
             r, rc = r2, rc2
             v = verdict(case, r, rc)
         if r is None and v is None:
-            st["not_run"] += 1
+            st["slow_skipped" if rc == 77 else "not_run"] = st.get("slow_skipped" if rc == 77 else "not_run", 0) + 1
             continue
         if r is not None and "setup_error" in r:
             st["skipped_setup"] += 1
@@ -519,13 +527,13 @@ def make_cases(ctx, nrounds, nfirst, max_threads, nops):
 
 
 def correspond(ctx):
-    cases, first, corpus_ids = make_cases(ctx, ctx.n(72, 3000), ctx.n(16, 320), ctx.n(8, 16), ctx.n(8, 16))
+    cases, first, corpus_ids = make_cases(ctx, ctx.n(160, 3000), ctx.n(16, 320), ctx.n(8, 16), ctx.n(8, 16))
     ctx.log("generated %d rounds + %d first-use rounds (fresh process each)" % (len(cases), len(first)))
     failures, st = evaluate(ctx, cases, first, coq_sample=ctx.n(6, 96))
     ctx.log("rounds=%d threads/round=%s ops=%d transcript items=%d cross-thread drops=%d first-use races=%d nontrivial=%d "
-            "skipped(setup)=%d not-run=%d coq traces=%d (%d steps) failures=%d"
+            "skipped(setup)=%d too-expensive=%d not-run=%d coq traces=%d (%d steps) failures=%d"
             % (st["rounds"], dict(sorted(st["threads"].items())), st["ops"], st["items"], st["xdrops"], st["first_use"], st["nontrivial"],
-               st["skipped_setup"], st["not_run"], st["coq_traces"], st["coq_steps"], len(failures)))
+               st["skipped_setup"], st.get("slow_skipped", 0), st["not_run"], st["coq_traces"], st["coq_steps"], len(failures)))
     broken = []
     total = len(cases) + len(first)
     if st["skipped_setup"] > total // 4 or st["rounds"] < total // 2:
@@ -549,6 +557,7 @@ def correspond(ctx):
         "first_use_races_exercised": st["first_use"],
         "rounds_skipped_setup_error": st["skipped_setup"],
         "rounds_not_run_after_crash": st["not_run"],
+        "rounds_skipped_too_expensive": st.get("slow_skipped", 0),
         "traces_validated_against_impl": st["coq_traces"],
         "model_steps_replayed": st["coq_steps"],
         "heap_events_recorded": st["events"],
